@@ -56,8 +56,30 @@ Record sql_obs := {
   so_hash_same : bool                           (* same table hash: literal / INSERT..SELECT / UPDATE..CONCAT *)
 }.
 
-Inductive input := IApi (a : api_in) | ISql (s : sql_in).
-Inductive obs := OApi (o : api_obs) | OSql (o : sql_obs) | OBad.
+(* ---------------- collated-text / JSON comparison case ----------------
+   The comparison of two adaptive values under a collation (or as JSON
+   documents) must be a function of the contents only.  The order of the
+   contents themselves (go-mysql-server's collation / JSON comparator applied to
+   the whole values) is an outside oracle, reported by the harness. *)
+Record cmp_in := {
+  c_kind : N;                 (* 0 collated text (non-binary collation), 1 collated text (_bin), 2 JSON *)
+  c_inline_x : bool;          (* x / y can be inline under the case's length target *)
+  c_inline_y : bool;
+  c_ref_xy : Z;               (* reference comparator on the full values: x vs y, y vs x *)
+  c_ref_yx : Z;
+  c_sql : bool                (* the case was also run through SQL *)
+}.
+Record cmp_obs := {
+  oc_xy : list (option Z);    (* compare(x, y) for (inline|out) x (inline|out): ii, io, oi, oo *)
+  oc_yx : list (option Z);    (* compare(y, x), same layout (first letter = representation of y) *)
+  oc_tuple_xy : Z;            (* TupleDesc.Compare on tuples holding x and y (as the builder stores them) *)
+  oc_tuple_yx : Z;
+  oc_sql_distinct : N;        (* SELECT DISTINCT over {x inline-table, y out-of-band-table}: number of values *)
+  oc_sql_first : N            (* id of the first row of ORDER BY v, id (x has id 1, y has id 2) *)
+}.
+
+Inductive input := IApi (a : api_in) | ISql (s : sql_in) | ICmp (c : cmp_in).
+Inductive obs := OApi (o : api_obs) | OSql (o : sql_obs) | OCmp (o : cmp_obs) | OBad.
 Definition case := (input * obs)%type.
 
 Definition store2 (a : api_in) (addr : bytes) : bytes :=
@@ -101,8 +123,19 @@ Definition sql_model (s : sql_in) : sql_obs :=
      so_unique := if s_kind s =? 2 then [] else unique_accepts (s_prefix s) [] vs;   (* no prefix key on JSON *)
      so_hash_same := true |}.
 
+(* comparison as a function of the contents only: every representation pair gives the reference answer *)
+Definition cmp_row (ref : Z) (il ir : bool) : list (option Z) :=
+  [ if il && ir then Some ref else None; if il then Some ref else None; if ir then Some ref else None; Some ref ].
+
+Definition cmp_model (c : cmp_in) : cmp_obs :=
+  {| oc_xy := cmp_row (c_ref_xy c) (c_inline_x c) (c_inline_y c);
+     oc_yx := cmp_row (c_ref_yx c) (c_inline_y c) (c_inline_x c);
+     oc_tuple_xy := c_ref_xy c; oc_tuple_yx := c_ref_yx c;
+     oc_sql_distinct := if c_sql c then (if (c_ref_xy c =? 0)%Z then 1 else 2) else 0;
+     oc_sql_first := if c_sql c then (if (c_ref_xy c <=? 0)%Z then 1 else 2) else 0 |}.
+
 Definition model_obs (i : input) : obs :=
-  match i with IApi a => OApi (api_model a) | ISql s => OSql (sql_model s) end.
+  match i with IApi a => OApi (api_model a) | ISql s => OSql (sql_model s) | ICmp c => OCmp (cmp_model c) end.
 
 Definition oz_eqb (a b : option Z) : bool :=
   match a, b with None, None => true | Some x, Some y => (x =? y)%Z | _, _ => false end.
@@ -130,10 +163,16 @@ Definition sql_eqb (a b : sql_obs) : bool :=
   && (so_join a =? so_join b) && list_eqb Bool.eqb (so_unique a) (so_unique b)
   && Bool.eqb (so_hash_same a) (so_hash_same b).
 
+Definition cmp_eqb (a b : cmp_obs) : bool :=
+  list_eqb oz_eqb (oc_xy a) (oc_xy b) && list_eqb oz_eqb (oc_yx a) (oc_yx b)
+  && (oc_tuple_xy a =? oc_tuple_xy b)%Z && (oc_tuple_yx a =? oc_tuple_yx b)%Z
+  && (oc_sql_distinct a =? oc_sql_distinct b) && (oc_sql_first a =? oc_sql_first b).
+
 Definition obs_eqb (a b : obs) : bool :=
   match a, b with
   | OApi x, OApi y => api_eqb x y
   | OSql x, OSql y => sql_eqb x y
+  | OCmp x, OCmp y => cmp_eqb x y
   | _, _ => false
   end.
 
@@ -174,10 +213,27 @@ Definition sql_oracle (s : sql_in) (o : sql_obs) : bool :=
   && list_eqb Bool.eqb (so_unique o) (if s_kind s =? 2 then [] else unique_accepts (s_prefix s) [] vs)
   && so_hash_same o.
 
+(* collated / JSON comparison: every answer, whatever the representations and
+   the operand order, is the order of the contents (so: representation
+   independent and antisymmetric); the tuple comparator and SQL DISTINCT /
+   ORDER BY agree with it *)
+Definition all_are (z : Z) (l : list (option Z)) : bool :=
+  forallb (fun c => match c with None => true | Some x => (x =? z)%Z end) l.
+
+Definition cmp_oracle (c : cmp_in) (o : cmp_obs) : bool :=
+  (c_ref_yx c =? - c_ref_xy c)%Z                         (* the reference itself is antisymmetric *)
+  && all_are (c_ref_xy c) (oc_xy o) && all_are (c_ref_yx c) (oc_yx o)
+  && Nat.eqb (length (oc_xy o)) 4 && Nat.eqb (length (oc_yx o)) 4
+  && (oc_tuple_xy o =? c_ref_xy c)%Z && (oc_tuple_yx o =? c_ref_yx c)%Z
+  && (negb (c_sql c)
+      || ((oc_sql_distinct o =? (if (c_ref_xy c =? 0)%Z then 1 else 2))
+          && (oc_sql_first o =? (if (c_ref_xy c <=? 0)%Z then 1 else 2)))).
+
 Definition oracle (i : input) (o : obs) : bool :=
   match i, o with
   | IApi a, OApi x => api_oracle a x
   | ISql s, OSql x => sql_oracle s x
+  | ICmp c, OCmp x => cmp_oracle c x
   | _, _ => false
   end.
 
